@@ -63,12 +63,15 @@ Definition join (sep : bytes) (l : list bytes) : bytes :=
   end.
 
 (** WriteStreamCSV::outputSymbol, the loop body: every DQUOTE is preceded by DQUOTE (field value) or
-    by BACKSLASH DQUOTE (symbol nested in a record / ADT). *)
+    by BACKSLASH DQUOTE (symbol nested in a record / ADT); in a nested symbol every BACKSLASH
+    is preceded by a BACKSLASH (`else if (ch == BACKSLASH && !fieldValue)`). *)
 Fixpoint esc_quotes (fieldValue : bool) (s : bytes) : bytes :=
   match s with
   | [] => []
   | c :: r =>
-      (if c =? 34 then (if fieldValue then [34] else [92; 34]) else []) ++ c :: esc_quotes fieldValue r
+      (if c =? 34 then (if fieldValue then [34] else [92; 34])
+       else if (c =? 92) && negb fieldValue then [92] else [])
+      ++ c :: esc_quotes fieldValue r
   end.
 
 (** WriteStreamCSV::outputSymbol(destination, value, fieldValue). *)
@@ -182,9 +185,8 @@ Definition upd_parens (c : N) (p : Z) : Z :=
     [s] is the line from [end] on, [e] = end - start, [p] = record_parens, [nd] =
     next_delimiter - start ([None] = npos). Result: end - start, or [None] for the error
     "Unbalanced record parenthesis".
-    When the end of the line is reached with record_parens != 0 the C++ loop keeps going and
-    indexes the line beyond its end (observed: segmentation fault on `a[b,3`); that case is
-    [None] here. *)
+    The loop stops at the end of the line (`end < line.length() && ...`, the repair of the
+    overrun on an unmatched '['); record_parens != 0 there is the error. *)
 Fixpoint bscan (d s : bytes) (e : nat) (p : Z) (nd : option nat) {struct s} : option nat :=
   match s with
   | [] => if (p =? 0)%Z then Some e else None
@@ -516,10 +518,10 @@ Fixpoint lookup_branch (b : bytes) (brs : list (bytes * list cty)) : option (lis
 (** A symbol nested in a record (closer = ']') or an ADT (closer = ')').
     Plain formats write it as it is: it must contain neither ',' nor the closer, and must not
     begin with white space (skipped by the reader) or with DQUOTE (read as a quoted symbol).
-    rfc4180 writes it quoted with DQUOTE escaped by a backslash, but does not escape backslashes:
-    it must not contain a backslash. *)
+    rfc4180 writes it quoted with DQUOTE and backslash escaped by a backslash, which the reader
+    of a quoted symbol undoes: any byte string is fine. *)
 Definition nested_sym_ok (rfc : bool) (closer : N) (s : bytes) : bool :=
-  if rfc then negb (memb 92 s)
+  if rfc then true
   else negb (memb 44 s) && negb (memb closer s) &&
        match s with
        | [] => true
@@ -613,8 +615,8 @@ Definition representable_row (c : cfg) (tys : list cty) (vs : list cval) : bool 
 Definition cfg_ok (c : cfg) : bool :=
   negb (is_nil (delim c)) && negb (memb 10 (delim c)) && negb (ends_cr (delim c)) && cfg_accepted c.
 
-(** * The writer before the repair of the BACKSLASH DQUOTE DQUOTE defect: the backslash was written for
-      top-level symbol fields too. Kept to state what was wrong. *)
+(** * The writer before the first repair (BACKSLASH DQUOTE DQUOTE): the backslash was written
+      for top-level symbol fields too. Kept to state what was wrong. *)
 Fixpoint esc_quotes_old (s : bytes) : bytes :=
   match s with
   | [] => []
@@ -629,6 +631,33 @@ Definition write_field_old (c : cfg) (ty : cty) (v : cval) : bytes :=
 
 Definition write_tuple_old (c : cfg) (tys : list cty) (vs : list cval) : bytes :=
   join (delim c) (map (fun tv => write_field_old c (fst tv) (snd tv)) (combine tys vs)) ++ [10].
+
+(** * The writer before the second repair: a symbol nested in a record / ADT under rfc4180 had
+      its quotes escaped by a backslash ([esc_quotes_old]) but its backslashes left alone,
+      although the reader of a quoted symbol removes one level of backslashes. *)
+Fixpoint write_value_nested_old (v : cval) : bytes :=
+  match v with
+  | CNum z => dec z
+  | CUns z => dec z
+  | CSym s => [34; 34] ++ esc_quotes_old s ++ [34; 34]
+  | CNil => B_NIL
+  | CRec fs => 91 :: join B_SEP (map write_value_nested_old fs) ++ [93]
+  | CAdt b fs =>
+      36 :: b ++
+      match fs with
+      | [] => []
+      | _ => 40 :: join B_SEP (map write_value_nested_old fs) ++ [41]
+      end
+  end.
+
+Definition write_field_nested_old (c : cfg) (ty : cty) (v : cval) : bytes :=
+  match ty with
+  | TyRec _ | TyAdt _ => if rfc4180 c then 34 :: write_value_nested_old v ++ [34] else write_value false v
+  | _ => write_field c ty v
+  end.
+
+Definition write_tuple_nested_old (c : cfg) (tys : list cty) (vs : list cval) : bytes :=
+  join (delim c) (map (fun tv => write_field_nested_old c (fst tv) (snd tv)) (combine tys vs)) ++ [10].
 
 (** * The fixed type environment of /verif/cpp/io_harness.cpp (used by the drivers and examples) *)
 Definition ty_P : cty := TyRec [TyNum; TySym].
